@@ -31,13 +31,30 @@ RULE = ("Round trip: Hypothesis draws the structure of a height map - shape (1xN
         "final number are undecidable for any reader and cut points that only remove trailing white space lose nothing: "
         "both are counted separately and accept either outcome.  Files live in a TemporaryDirectory created and removed "
         "inside the case.  Non-trivial = non-square, or negative/mixed values, or NaNs present, or (truncation clauses) "
-        "at least one cut point inside the data block (always true).  Distinct = distinct canonical JSON of the case.")
+        "at least one cut point inside the data block (always true).  Distinct = distinct canonical JSON of the case.  "
+        "Hardening pass: the map handed to a writer additionally has a drawn dtype {float64, float32, int64, int32, int16, "
+        "uint16, uint8 (integer maps: rounded ramp scaled into the type's and the format's range, no NaN)} and memory "
+        "layout {C, Fortran, transpose view, strided view, rot90 view, negative strides, read-only}; dx and wavelength are "
+        "given as {Python float, numpy float64 / float32 scalar, 0-d float64 / float32 array, Python int, omitted -> the "
+        "documented default (Interferogram dx = 0, wavelength 0.6328) / keyword form}; dx == 0 (documented 'no lateral "
+        "calibration') is drawn with probability 1/4 and dx spans 1e-7 .. 1e4 mm; every array-like argument (map, 0-d dx / "
+        "wavelength) is compared bit for bit with a copy taken before the call, and the Interferogram that was saved must "
+        "still hold the same data / dx / wavelength.  Clause file_sequence is a history inside one process: 2-3 files of "
+        "drawn kinds (zygo / interferogram / codev) with different shapes, dtypes, layouts, dx, wavelength, reader precisions "
+        "are written and read either to distinct paths (all written, then all read) or one after the other through ONE "
+        "re-used path, optionally through ONE re-used Interferogram object whose data / dx / wavelength attributes are "
+        "re-assigned; every result is compared with its own oracle only after the last read (results kept side by side), "
+        "then every result array is overwritten in place and the files are read once more.  The truncation clauses re-read "
+        "the intact file after all the cut reads and require the first result again.")
 ASSUMPTIONS = ["the operating system's file layer returns the bytes that were written",
                "numpy float/int conversion and IEEE-754 float32 rounding (relative 2^-24) are correct",
                "the harness' own parser of the Code V header line (tokens GRD/WVL/SSZ/NDA) and of the 834-byte Zygo "
                "layout (header_size + 4 bytes per sample, file order = rows bottom-to-top) is correct",
                "Code V typ 'FIL' (intensity apodisation, not a height map; the reader does not accept it) is outside the domain",
-               "Zygo intensity blocks are never written by the library's writer and are not exercised"]
+               "Zygo intensity blocks are never written by the library's writer and are not exercised",
+               "float32 maps / float32 wavelengths are carried by the writers in float32 arithmetic: a further 2^-19 relative "
+               "term is allowed on top of the quantisation step for them (measured < 2^-22); float16 maps overflow inside "
+               "the unit conversions of the clean code and are outside the domain"]
 
 ZYGO_HEADER = 834
 ZYGO_RES = 32768          # phase_res = 1 (what the writer writes)
@@ -47,7 +64,7 @@ SIGNS = ['pos', 'neg', 'mixed', 'mixed', 'const', 'negconst', 'zero']
 NANS = ['none', 'none', 'scatter', 'rowcol', 'allbut1', 'all']
 NANS_SOME_VALID = ['none', 'none', 'scatter', 'rowcol', 'allbut1']
 ZYGO_AMPS = [1e-3, 0.4, 3.0, 100.0, 1e4, 1e6, ZYGO_MAX_COUNTS]   # in counts (quantisation steps)
-CODEV_AMPS = [1e-6, 1e-3, 0.5, 30.0, 999.0, 1e4, 1e7, 1e12]      # in nm
+CODEV_AMPS = [1e-20, 1e-6, 1e-3, 0.5, 30.0, 999.0, 1e4, 1e7, 1e12, 1e25]      # in nm (1e-20 / 1e25: far ends that float32 still holds)
 TITLES = ['CV GRD generated by prysm', 'surface 3 figure error', 'x']
 
 
@@ -94,13 +111,108 @@ def build_map(case, unit):
     return z, m
 
 
+# ---- dtype / memory layout / scalar form of the arguments (hardening pass) ---------------------------
+MAP_DTYPES = ['f8', 'f8', 'f8', 'f8', 'f8', 'f4', 'f4', 'f4', 'f4', 'i8', 'i4', 'i2', 'u2', 'u1']
+MAP_LAYOUTS = ['C', 'C', 'F', 'T-view', 'strided', 'rot90', 'negstride', 'readonly']
+SCALAR_FORMS = ['float', 'float', 'np64', 'np32', '0d', '0d32', 'int', 'omit']
+_NP_DTYPE = {'f8': np.float64, 'f4': np.float32, 'i8': np.int64, 'i4': np.int32, 'i2': np.int16, 'u2': np.uint16, 'u1': np.uint8}
+
+
+def relayout(a, how):
+    """same values, other strides / flags"""
+    if how == 'rot90':        # what a user does to fix the orientation just before exporting
+        return np.rot90(np.ascontiguousarray(np.rot90(a, -1)))
+    if how == 'negstride':
+        return np.ascontiguousarray(a[::-1, ::-1])[::-1, ::-1]
+    if how == 'readonly':
+        b = np.array(a, order='C', copy=True)
+        b.setflags(write=False)
+        return b
+    return U.relayout(a, how)
+
+
+def typed_map(case, unit, cap):
+    """the map as it is handed to the writer (drawn dtype and memory layout) and the float64 oracle of its values.
+
+    float32: the float64 ramp rounded to float32 (the oracle is what the float32 array holds).  Integer types: the ramp
+    without NaNs, scaled so that its peak is at least h*w+5 (distinct samples where the type allows) and at most 0.9 x the
+    type's largest value and `cap` (the top of the file format's range, in the map's unit), rounded; unsigned types are
+    shifted to start at 0."""
+    dt = case.get('dtype', 'f8')
+    z, m = build_map(case, unit)
+    if dt in ('f8', 'f4'):
+        a = z.astype(_NP_DTYPE[dt])
+    else:
+        z0, _ = build_map(dict(case, nan='none'), unit)
+        info = np.iinfo(_NP_DTYPE[dt])
+        peak = float(np.max(np.abs(z0)))
+        if peak > 0:
+            top = min(0.9 * float(info.max), cap)
+            target = min(max(peak, min(z0.size + 5.0, top)), top)
+            zi = np.rint(z0 * (target / peak))
+            if info.min == 0 and zi.min() < 0:
+                zi = zi - zi.min()
+            zi = np.clip(zi, float(info.min), top)
+        else:
+            zi = z0
+        a = zi.astype(_NP_DTYPE[dt])
+    want = np.array(a, dtype=np.float64)
+    return relayout(a, case.get('layout', 'C')), want
+
+
+def scalar_form(v, form):
+    """(object handed to the library, value it stands for); 'omit' is resolved by the caller"""
+    if form in ('float', 'omit'):
+        return float(v), float(v)
+    if form == 'np64':
+        return np.float64(v), float(v)
+    if form == 'np32':
+        return np.float32(v), float(np.float32(v))
+    if form == '0d':
+        return np.array(float(v)), float(v)
+    if form == '0d32':
+        return np.array(v, dtype=np.float32), float(np.float32(v))
+    if form == 'int':
+        return int(round(v)), float(int(round(v)))
+    raise ValueError(form)
+
+
+def _snapshot(*objs):
+    """bit-exact copies of the array-like arguments (NaN payloads included)"""
+    return [(np.array(o, copy=True), np.asarray(o).dtype, np.shape(o)) for o in objs]
+
+
+def _require_unchanged(ctx, who, names, objs, snaps):
+    for name, o, (keep, dt, shp) in zip(names, objs, snaps):
+        now = np.asarray(o)
+        if now.dtype != dt or now.shape != tuple(shp) or np.ascontiguousarray(now).tobytes() != np.ascontiguousarray(keep).tobytes():
+            if now.shape == tuple(shp) and now.size:
+                diff = np.argwhere(~((now == keep) | ((now != now) & (keep != keep))))
+                i = tuple(int(k) for k in diff[0]) if diff.size else ()
+                detail = 'first difference at %s: was %r, now %r; %d of %d samples changed' % (i, keep[i], now[i], len(diff), now.size)
+            else:
+                detail = 'was %s %s, now %s %s' % (dt, tuple(shp), now.dtype, now.shape)
+            ctx.fail(who + ':argument-modified', 'the %s handed to %s was changed by the call: %s' % (name, who, detail))
+
+
 def _labels(case, ctx, amps):
     h, w = case['shape']
-    ctx.label('square' if h == w else 'nonsquare', 'sign:' + case['sign'], 'nan:' + case['nan'],
-              'amp:%g' % case['amp'])
+    dt = case.get('dtype', 'f8')
+    ctx.label('square' if h == w else 'nonsquare', 'sign:' + case['sign'],
+              'nan:' + (case['nan'] if dt in ('f8', 'f4') else 'none(int)'), 'amp:%g' % case['amp'],
+              'dtype:' + dt, 'layout:' + case.get('layout', 'C'))
+    if 'dxform' in case:
+        ctx.label('dx:zero' if case['dx'] == 0 else 'dx:tiny' if case['dx'] < 1e-4 else 'dx:huge' if case['dx'] > 50 else 'dx:usual',
+                  'dxform:' + case['dxform'], 'wvlform:' + case.get('wvlform', 'float'))
     if h == 1 or w == 1:
         ctx.label('1xN' if h == 1 else 'Nx1')
-    ctx.nt(h != w or case['sign'] in ('neg', 'mixed', 'negconst') or case['nan'] != 'none')
+    if h * w > 585:
+        ctx.label('more than one 585-sample record' + (', > 2^16 samples' if h * w > 65536 else ''))
+    if dt in ('f8', 'f4') and case.get('layout', 'C') in ('F', 'T-view', 'rot90') and h > 1 and w > 1:
+        ctx.label('2-D map not in C order' + (' with NaN' if case['nan'] != 'none' else ''))
+    if dt == 'f4' and case['nan'] != 'none':
+        ctx.label('float32 map with NaN')
+    ctx.nt(h != w or case['sign'] in ('neg', 'mixed', 'negconst') or (case['nan'] != 'none' and dt in ('f8', 'f4')))
 
 
 def _orientation_hint(got, want, tol):
@@ -197,84 +309,225 @@ def _write_codev(ctx, writer, target, path):
         raise ValueError(target)
 
 
-# ---- Zygo round trip -----------------------------------------------------------------------------
+# ---- one file: arguments, write, read, compare -----------------------------------------------------
 def _zygo_step(wavelength_um):
     return wavelength_um * 1e3 / ZYGO_RES   # nm per count
 
 
-def _zygo_tol(want, wavelength_um, prec):
+def _zygo_tol(want, wavelength_um, prec, lowprec=False):
     step = _zygo_step(wavelength_um)
     a = np.where(np.isnan(want), 0.0, np.abs(want))
     # one count (the writer truncates) + float32 header wavelength (2^-24 relative, 4x head-room)
     # + float32 sample storage under the 32-bit configuration (2^-24 relative per operation, 16x head-room)
-    return step * (1 + 1e-9) + a * (2.0 ** -22 + (2.0 ** -20 if prec == 32 else 0.0))
+    # + float32 arithmetic inside the writer when the map or the wavelength is given in float32 (3 operations, 2^-19)
+    return step * (1 + 1e-9) + a * (2.0 ** -22 + (2.0 ** -20 if prec == 32 else 0.0) + (2.0 ** -19 if lowprec else 0.0))
 
 
-def _shape_strat(nmax):
+class _File:
+    """One file of kind 'zygo' (write_zygo_dat / read_zygo_dat), 'ifg' (Interferogram.save_zygo_dat / from_zygo_dat) or
+    'codev' (write_codev_gridint / read_codev_gridint): the arguments in their drawn dtype / layout / scalar form, the
+    oracle, and the four steps write / read / compare / scribble, so that round trips and histories share one oracle."""
+
+    def __init__(self, case, kind, ctx, shape=None):
+        self.case = case = dict(case, shape=list(shape)) if shape is not None else case
+        self.kind, self.ctx = kind, ctx
+        self.prec = case.get('prec', 64)
+        self.target = case.get('target', 'str')
+        self.result = self.meta = self.obj = self.text = self.at_read = self.path = None
+        if kind == 'codev':
+            self.z_arg, self.want = typed_map(case, 1.0, float('inf'))
+            self.who = 'codev'
+            self.args, self.argnames = [self.z_arg], ['map']
+        else:
+            dxform, wvlform = case.get('dxform', 'float'), case.get('wvlform', 'float')
+            wv = 0.6328 if wvlform == 'omit' else (max(1.0, round(case['wavelength'])) if wvlform == 'int' else case['wavelength'])
+            self.wvl_arg, self.wvl = scalar_form(wv, wvlform)
+            self.dx_arg, self.dx = scalar_form(case['dx'], dxform)
+            self.omit_dx, self.omit_wvl = dxform == 'omit', wvlform == 'omit'
+            if kind == 'ifg' and self.omit_dx:
+                self.dx = 0.0        # Interferogram.__init__: dx=0, "if zero the data has no lateral calibration"
+            self.lowprec = case.get('dtype', 'f8') == 'f4' or wvlform in ('np32', '0d32')
+            step = _zygo_step(self.wvl)
+            self.z_arg, self.want = typed_map(case, step, step * ZYGO_MAX_COUNTS)
+            self.who = 'zygo' if kind == 'zygo' else 'interferogram'
+            self.args, self.argnames = [self.z_arg, self.dx_arg, self.wvl_arg], ['map', 'dx', 'wavelength']
+        self.snap = _snapshot(*self.args)
+
+    # -- write ---------------------------------------------------------------------------------------
+    def _zygo_writer(self):
+        from prysm.io import write_zygo_dat
+        kw = {} if self.omit_wvl else {'wavelength': self.wvl_arg}
+        if self.omit_dx:      # dx is a required argument of the function: 'omit' stands for the all-keyword form
+            return lambda f: write_zygo_dat(file=f, phase=self.z_arg, dx=self.dx_arg, **kw)
+        return lambda f: write_zygo_dat(f, self.z_arg, self.dx_arg, **kw)
+
+    def make_interferogram(self):
+        from prysm.interferogram import Interferogram
+        kw = {} if self.omit_wvl else {'wavelength': self.wvl_arg}
+        if self.omit_dx:
+            return self.ctx.call(Interferogram, self.z_arg, **kw)
+        return self.ctx.call(Interferogram, phase=self.z_arg, dx=self.dx_arg, **kw)
+
+    def assign_to(self, obj):
+        """re-use an Interferogram: new data / dx / wavelength through its public attributes"""
+        obj.data = self.z_arg
+        obj.dx = self.dx_arg if not self.omit_dx else 0
+        obj.wavelength = self.wvl_arg
+        return obj
+
+    def write(self, path, obj=None):
+        ctx, case = self.ctx, self.case
+        if self.kind == 'zygo':
+            _write_zygo(ctx, self._zygo_writer(), self.target, path)
+        elif self.kind == 'ifg':
+            self.obj = obj if obj is not None else self.make_interferogram()
+            _write_zygo(ctx, self.obj.save_zygo_dat, self.target, path)
+            o = self.obj
+            same = (o.data is self.z_arg or np.array_equal(np.asarray(o.data), self.snap[0][0], equal_nan=True))
+            ctx.require(same and float(o.dx) == self.dx and float(o.wavelength) == self.wvl, 'interferogram:save-changed-object',
+                        'after save_zygo_dat the Interferogram holds dx %r (was %r), wavelength %r (was %r), data %s' % (
+                            o.dx, self.dx, o.wavelength, self.wvl, 'unchanged' if same else 'changed'))
+        else:
+            from prysm.io import write_codev_gridint
+            kw = {'typ': case['typ'], 'nnb': case['nnb']}
+            if case.get('title') is not None:
+                kw['comment'] = case['title']
+            if case.get('kwform', False):
+                _write_codev(ctx, lambda f: write_codev_gridint(array=self.z_arg, filename=f, **kw), self.target, path)
+            else:
+                _write_codev(ctx, lambda f: write_codev_gridint(self.z_arg, f, **kw), self.target, path)
+            with open(path) as fh:
+                self.text = fh.read()
+        _require_unchanged(ctx, {'zygo': 'write_zygo_dat', 'ifg': 'save_zygo_dat', 'codev': 'write_codev_gridint'}[self.kind],
+                           self.argnames, self.args, self.snap)
+
+    # -- read ----------------------------------------------------------------------------------------
+    def read(self, path):
+        ctx = self.ctx
+        parg = pathlib.Path(path) if self.target == 'pathlib' else path
+        # the writer stores no intensity frames: every documented way of combining them reads the same phase
+        mia = {} if self.case.get('mia') is None else {'multi_intensity_action': self.case['mia']}
+        with U.precision(self.prec):
+            if self.kind == 'zygo':
+                from prysm.io import read_zygo_dat
+                res = ctx.call(read_zygo_dat, parg, **mia)
+                ctx.require(isinstance(res, dict) and 'phase' in res and 'meta' in res, 'zygo:return', 'reader did not return phase/meta')
+                self.result, self.meta = res['phase'], res['meta']
+            elif self.kind == 'ifg':
+                from prysm.interferogram import Interferogram
+                back = ctx.call(Interferogram.from_zygo_dat, parg, **mia)
+                self.result, self.meta = back.data, back
+            else:
+                from prysm.io import read_codev_gridint
+                res = ctx.call(read_codev_gridint, parg)
+                ctx.require(isinstance(res, tuple) and len(res) == 2, 'codev:return', 'reader did not return (array, meta)')
+                self.result, self.meta = res
+        self.at_read = np.array(self.result, copy=True) if isinstance(self.result, np.ndarray) else None
+        return self.result
+
+    def require_kept(self, what):
+        """the array returned by the reader still holds what it held when it was returned"""
+        r = self.result
+        if self.at_read is not None and isinstance(r, np.ndarray) and not (
+                r.shape == self.at_read.shape and np.array_equal(r, self.at_read, equal_nan=True)):
+            self.ctx.fail(self.who + ':result-overwritten', 'the %s array returned for file %s changed while %s' % (
+                tuple(self.at_read.shape), os.path.basename(self.path), what))
+
+    # -- compare -------------------------------------------------------------------------------------
+    def compare(self, tag=''):
+        ctx, who, want = self.ctx, self.who + tag, self.want
+        if self.kind == 'codev':
+            fin = want[np.isfinite(want)]
+            whov = who + (':all-positive' if fin.size and fin.min() > 0 else ':all-negative' if fin.size and fin.max() < 0 else '')
+            hdr = _codev_header(self.text)
+            ctx.require(hdr is not None and hdr['ssz'] != 0 and np.isfinite(hdr['ssz']), whov + ':header',
+                        'header line of the written file is not a usable GRD header: %r' % self.text.split('\n')[1:2])
+            step = 1000.0 * hdr['wvl'] / abs(hdr['ssz'])   # nm per count, as written
+            a = np.where(np.isnan(want), 0.0, np.abs(want))
+            lowp = self.case.get('dtype', 'f8') == 'f4'
+            tol = step * (1 + 1e-9) + a * (1e-12 + (2.0 ** -20 if self.prec == 32 else 0.0) + (2.0 ** -19 if lowp else 0.0))
+            return compare_map(self.result, want, tol, who, ctx, who_value=whov)
+        worst = compare_map(self.result, want, _zygo_tol(want, self.wvl, self.prec, self.lowprec), who, ctx)
+        dx, wvl = self.dx, self.wvl
+        if self.kind == 'zygo':
+            got_dx = float(self.meta['lateral_resolution']) * 1e3
+            got_w = float(self.meta['wavelength']) * 1e6
+        else:
+            got_dx = float(self.meta.dx)
+            ctx.require(self.meta.wavelength is not None, who + ':wavelength', 'saved wavelength %r um, loaded None' % (wvl,))
+            got_w = float(self.meta.wavelength)
+        zero = ':dx-zero' if dx == 0 else ''
+        ctx.require(abs(got_dx - dx) <= 1e-6 * dx, who + ':dx' + zero, 'wrote dx %r mm (given as %s), read back %r mm' % (
+            dx, self.case.get('dxform', 'float'), got_dx))
+        ctx.require(abs(got_w - wvl) <= 1e-6 * wvl, who + ':wavelength', 'wrote wavelength %r um (given as %s), read back %r um' % (
+            wvl, self.case.get('wvlform', 'float'), got_w))
+        return worst
+
+    def scribble(self):
+        """overwrite the returned array in place (a reader must not hand out its own state)"""
+        r = self.result
+        if isinstance(r, np.ndarray) and r.flags.writeable:
+            r[...] = 12345.0
+
+
+def _shape_strat(nmax, large=False):
     ax = U.axis_len(nmax)
     big = st.integers(max(1, nmax // 2), nmax)
-    return st.one_of(st.tuples(ax, ax).map(list), st.tuples(ax, ax).map(list), st.tuples(big, big).map(list),
+    two = st.integers(2, max(2, nmax // 2))       # both axes longer than 1: the memory layouts differ from each other
+    alts = []
+    if large:
+        # beyond one 585-sample record of the Code V writer (sizes with small and with large prime factors), > 2**16 samples
+        alts = [st.sampled_from([[25, 24], [1, 587], [587, 1], [31, 37], [2, 593], [40, 40], [64, 64], [1, 4099], [257, 256], [3, 1171]])]
+    return st.one_of(*alts, st.tuples(ax, ax).map(list), st.tuples(two, two).map(list), st.tuples(two, two).map(list), st.tuples(big, big).map(list),
                      st.tuples(big, ax).map(list), st.tuples(ax, big).map(list), ax.map(lambda n: [n, n]),
                      ax.map(lambda n: [1, n]), ax.map(lambda n: [n, 1]))
 
 
-def _map_fields(nmax, amps, nans=NANS):
-    return {'shape': _shape_strat(nmax), 'sign': st.sampled_from(SIGNS), 'nan': st.sampled_from(nans),
-            'amp': st.sampled_from(amps), 'seed': U.seeds}
+def _map_fields(nmax, amps, nans=NANS, large=False):
+    return {'shape': _shape_strat(nmax, large), 'sign': st.sampled_from(SIGNS), 'nan': st.sampled_from(nans),
+            'amp': st.sampled_from(amps), 'seed': U.seeds, 'dtype': st.sampled_from(MAP_DTYPES), 'layout': st.sampled_from(MAP_LAYOUTS)}
+
+
+def _zygo_fields():
+    dx = st.one_of(st.just(0.0), U.nice_float(1e-4, 50.0), U.nice_float(1e-4, 50.0), st.sampled_from([1e-7, 2.5e-6, 7e-5, 123.0, 1e4]))
+    return {'dx': dx, 'wavelength': st.one_of(st.just(0.6328), U.nice_float(0.2, 15.0), U.nice_float(0.05, 200.0)),
+            'dxform': st.sampled_from(SCALAR_FORMS), 'wvlform': st.sampled_from(SCALAR_FORMS),
+            'target': st.sampled_from(['str', 'pathlib', 'fileobj', 'buffer']), 'prec': st.sampled_from([64, 64, 32]),
+            'mia': st.sampled_from([None, None, 'first', 'avg', 'last', 'AVG'])}
 
 
 def strat_zygo(tier):
-    d = _map_fields({'quick': 24, 'thorough': 40}[tier], ZYGO_AMPS)
-    d.update({'dx': U.nice_float(1e-4, 50.0), 'wavelength': st.one_of(st.just(0.6328), U.nice_float(0.2, 15.0)),
-              'target': st.sampled_from(['str', 'pathlib', 'fileobj', 'buffer']), 'prec': st.sampled_from([64, 64, 32])})
+    d = _map_fields({'quick': 24, 'thorough': 40}[tier], ZYGO_AMPS, large=True)
+    d.update(_zygo_fields())
     return st.fixed_dictionaries(d)
 
 
-def _zygo_roundtrip(case, ctx, who='zygo'):
-    from prysm.io import write_zygo_dat, read_zygo_dat
-    wvl, dx, prec = case['wavelength'], case['dx'], case['prec']
-    z, m = build_map(case, _zygo_step(wvl))
+def _roundtrip(case, kind, ctx, ext, tag=''):
+    f = _File(case, kind, ctx)
     with tempfile.TemporaryDirectory() as d:
-        p = os.path.join(d, 'a.dat')
-        _write_zygo(ctx, lambda f: write_zygo_dat(f, z.copy(), dx, wavelength=wvl), case['target'], p)
-        with U.precision(prec):
-            res = ctx.call(read_zygo_dat, p)
-    ctx.require(isinstance(res, dict) and 'phase' in res and 'meta' in res, who + ':return', 'reader did not return phase/meta')
-    compare_map(res['phase'], z, _zygo_tol(z, wvl, prec), who, ctx)
-    got_dx = float(res['meta']['lateral_resolution']) * 1e3
-    ctx.require(abs(got_dx - dx) <= 1e-6 * dx, who + ':dx', 'wrote dx %r mm, header says %r mm' % (dx, got_dx))
-    got_w = float(res['meta']['wavelength']) * 1e6
-    ctx.require(abs(got_w - wvl) <= 1e-6 * wvl, who + ':wavelength', 'wrote wavelength %r um, header says %r um' % (wvl, got_w))
+        p = os.path.join(d, 'a' + ext)
+        f.write(p)
+        f.read(p)
+    return f.compare(tag)
 
 
 def check_zygo(case, ctx):
     """write_zygo_dat -> read_zygo_dat: same shape/orientation, NaNs in place, values within a count, dx, wavelength."""
     _labels(case, ctx, ZYGO_AMPS)
     ctx.label('target:' + case['target'], 'prec%d' % case['prec'])
-    _zygo_roundtrip(case, ctx)
+    _roundtrip(case, 'zygo', ctx, '.dat')
 
 
 def check_interferogram(case, ctx):
     """Interferogram.save_zygo_dat -> Interferogram.from_zygo_dat: data, dx and wavelength survive the unit conversions."""
-    from prysm.interferogram import Interferogram
     _labels(case, ctx, ZYGO_AMPS)
     ctx.label('target:' + case['target'], 'prec%d' % case['prec'])
-    wvl, dx, prec = case['wavelength'], case['dx'], case['prec']
-    z, m = build_map(case, _zygo_step(wvl))
-    with tempfile.TemporaryDirectory() as d:
-        p = os.path.join(d, 'i.dat')
-        src = ctx.call(Interferogram, phase=z.copy(), dx=dx, wavelength=wvl)
-        _write_zygo(ctx, src.save_zygo_dat, case['target'], p)
-        with U.precision(prec):
-            back = ctx.call(Interferogram.from_zygo_dat, p if case['target'] != 'pathlib' else pathlib.Path(p))
     try:
-        compare_map(back.data, z, _zygo_tol(z, wvl, prec), 'interferogram', ctx)
-        ctx.require(abs(float(back.dx) - dx) <= 1e-6 * dx, 'interferogram:dx', 'saved dx %r mm, loaded %r mm' % (dx, back.dx))
-        ctx.require(back.wavelength is not None and abs(float(back.wavelength) - wvl) <= 1e-6 * wvl, 'interferogram:wavelength',
-                    'saved wavelength %r um, loaded %r um' % (wvl, back.wavelength))
+        _roundtrip(case, 'ifg', ctx, '.dat')
     except Violation as v:
         # name the root cause: if the file layer alone fails on the same map it is the file layer's defect
-        _zygo_roundtrip(case, ctx, who='zygo')
+        if not v.bucket.startswith('interferogram:save-changed-object'):
+            _roundtrip(dict(case, dxform='float' if case.get('dxform') == 'omit' else case.get('dxform', 'float')), 'zygo', ctx, '.dat')
         raise v
 
 
@@ -303,48 +556,88 @@ def _codev_header(text):
     return out
 
 
+def _codev_fields():
+    return {'typ': st.sampled_from(['SUR', 'WFR', 'sur', 'wfr']), 'nnb': st.booleans(), 'title': st.sampled_from(TITLES + [None]),
+            'kwform': st.booleans(), 'target': st.sampled_from(['str', 'pathlib', 'fileobj', 'buffer']), 'prec': st.sampled_from([64, 64, 32])}
+
+
 def strat_codev(tier):
     # a map without a single valid sample has no scale (SSZ) to write: not generated for Code V
-    d = _map_fields({'quick': 24, 'thorough': 40}[tier], CODEV_AMPS, NANS_SOME_VALID)
-    d.update({'typ': st.sampled_from(['SUR', 'WFR', 'sur', 'wfr']), 'nnb': st.booleans(), 'title': st.sampled_from(TITLES),
-              'target': st.sampled_from(['str', 'pathlib', 'fileobj', 'buffer']), 'prec': st.sampled_from([64, 64, 32])})
+    d = _map_fields({'quick': 24, 'thorough': 40}[tier], CODEV_AMPS, NANS_SOME_VALID, large=True)
+    d.update(_codev_fields())
     return st.fixed_dictionaries(d)
-
-
-def _codev_bucket(case, z):
-    fin = z[np.isfinite(z)]
-    if fin.size and fin.min() > 0:
-        return 'codev:all-positive'
-    if fin.size and fin.max() < 0:
-        return 'codev:all-negative'
-    return 'codev'
 
 
 def check_codev(case, ctx):
     """write_codev_gridint -> read_codev_gridint: same shape/orientation, NaNs in place, values within one count of the header's SSZ."""
-    from prysm.io import write_codev_gridint, read_codev_gridint
     _labels(case, ctx, CODEV_AMPS)
-    ctx.label('target:' + case['target'], 'prec%d' % case['prec'], 'typ:' + case['typ'].upper(), 'nnb' if case['nnb'] else 'bilinear')
-    prec = case['prec']
-    z, m = build_map(case, 1.0)
-    who = _codev_bucket(case, z)
+    ctx.label('target:' + case['target'], 'prec%d' % case['prec'], 'typ:' + case['typ'].upper(), 'nnb' if case['nnb'] else 'bilinear',
+              'title:default' if case.get('title', '') is None else 'title:given')
+    _roundtrip(case, 'codev', ctx, '.int')
+
+
+# ---- history: several files in one process -----------------------------------------------------------
+KINDS = ['zygo', 'ifg', 'codev']
+
+
+def strat_sequence(tier):
+    nmax = {'quick': 12, 'thorough': 24}[tier]
+    d = _map_fields(nmax, [0.4, 100.0, 1e6], NANS_SOME_VALID)
+    d.update(_zygo_fields())
+    d.update(_codev_fields())
+    d.update({'kind': st.sampled_from(KINDS), 'reuse_obj': st.booleans(), 'target': st.sampled_from(['str', 'str', 'pathlib', 'fileobj', 'buffer'])})
+    one = st.fixed_dictionaries(d)
+    return st.fixed_dictionaries({'files': st.lists(one, min_size=2, max_size=3), 'mode': st.sampled_from(['batch', 'one-path']),
+                                  'same_shape': st.booleans()})
+
+
+def check_sequence(case, ctx):
+    """2-3 files of mixed kinds / shapes / dtypes / dx / wavelength written and read in one process (distinct paths, or one re-used path / Interferogram): every file returns its own map, results are independent arrays."""
+    subs = case['files']
+    kinds = [s['kind'] for s in subs]
+    ctx.nt(True)
+    ctx.label('mode:' + case['mode'], 'kinds:' + ('same' if len(set(kinds)) == 1 else 'mixed'), 'n:%d' % len(subs),
+              'dtypes:' + ('same' if len(set(s['dtype'] for s in subs)) == 1 else 'differ'),
+              'prec:' + ('same' if len(set(s['prec'] for s in subs)) == 1 else 'differ'),
+              'shapes:' + ('same' if case.get('same_shape') or len(set(tuple(s['shape']) for s in subs)) == 1 else 'differ'))
+    files, prev = [], None
     with tempfile.TemporaryDirectory() as d:
-        p = os.path.join(d, 'c.int')
-        _write_codev(ctx, lambda f: write_codev_gridint(z.copy(), f, comment=case['title'], typ=case['typ'], nnb=case['nnb']),
-                     case['target'], p)
-        with open(p) as fh:
-            text = fh.read()
-        with U.precision(prec):
-            res = ctx.call(read_codev_gridint, p if case['target'] != 'pathlib' else pathlib.Path(p))
-    ctx.require(isinstance(res, tuple) and len(res) == 2, 'codev:return', 'reader did not return (array, meta)')
-    got, meta = res
-    hdr = _codev_header(text)
-    ctx.require(hdr is not None and hdr['ssz'] != 0 and np.isfinite(hdr['ssz']), who + ':header',
-                'header line of the written file is not a usable GRD header: %r' % text.split('\n')[1:2])
-    step = 1000.0 * hdr['wvl'] / abs(hdr['ssz'])   # nm per count, as written
-    a = np.where(np.isnan(z), 0.0, np.abs(z))
-    tol = step * (1 + 1e-9) + a * (1e-12 + (2.0 ** -20 if prec == 32 else 0.0))
-    compare_map(got, z, tol, 'codev', ctx, who_value=who)
+        for k, s in enumerate(subs):
+            reuse = s['kind'] == 'ifg' and s['reuse_obj'] and prev is not None and prev.kind == 'ifg'
+            f = _File(s, s['kind'], ctx, shape=subs[0]['shape'] if case.get('same_shape') else None)
+            f.path = os.path.join(d, 'm.dat' if case['mode'] == 'one-path' else 'm%d%s' % (k, '.int' if s['kind'] == 'codev' else '.dat'))
+            if reuse:
+                ctx.label('interferogram object re-used')
+                f.write(f.path, obj=f.assign_to(prev.obj))
+            else:
+                f.write(f.path)
+            if case['mode'] == 'one-path':
+                f.read(f.path)          # the next file replaces this one
+            files.append(f)
+            prev = f
+        if case['mode'] == 'batch':
+            for f in files:
+                f.read(f.path)
+        # all results side by side: none was touched by a later write / read, and each one matches its own oracle
+        for f in files:
+            f.require_kept('%d more file(s) were written / read' % (len(files) - 1 - files.index(f)))
+        for f in files:
+            f.compare(':sequence')
+        # arguments of the earlier writers are still what they were
+        for f in files:
+            if not (f.kind == 'ifg' and any(g.obj is f.obj and g is not f for g in files)):
+                _require_unchanged(ctx, f.who + ':sequence', f.argnames, f.args, f.snap)
+        # results are the caller's: overwrite them, read again
+        for f in files:
+            f.scribble()
+        again = files if case['mode'] == 'batch' else files[-1:]
+        for f in again:
+            f.read(f.path)
+        for f in again:
+            r = np.asarray(f.result)
+            if r.size and np.all(r == 12345.0):
+                ctx.fail(f.who + ':aliased-state', 'the array returned by the first read was filled with 12345 by the caller; a second read of %s returns 12345 everywhere' % os.path.basename(f.path))
+            f.compare(':second-read')
 
 
 # ---- truncation: fault enumeration -----------------------------------------------------------------
@@ -409,7 +702,7 @@ def check_zygo_trunc(case, ctx):
     ctx.nt(True)
     wvl = case['wavelength']
     h, w = case['shape']
-    z, m = build_map(case, _zygo_step(wvl))
+    z, _ = typed_map(case, _zygo_step(wvl), _zygo_step(wvl) * ZYGO_MAX_COUNTS)
     if case['reader'] == 'io':
         def reader(path):
             return read_zygo_dat(path)['phase']
@@ -419,12 +712,13 @@ def check_zygo_trunc(case, ctx):
     with tempfile.TemporaryDirectory() as d:
         p = os.path.join(d, 'full.dat')
         if case['writer'] == 'io':
-            ctx.call(write_zygo_dat, p, z.copy(), 0.25, wavelength=wvl)
+            ctx.call(write_zygo_dat, p, z, 0.25, wavelength=wvl)
         else:
-            ctx.call(ctx.call(Interferogram, phase=z.copy(), dx=0.25, wavelength=wvl).save_zygo_dat, p)
+            ctx.call(ctx.call(Interferogram, phase=z, dx=0.25, wavelength=wvl).save_zygo_dat, p)
         with open(p, 'rb') as fh:
             raw = fh.read()
         total = len(raw)
+        first = np.array(ctx.call(reader, p), copy=True)
         if total != ZYGO_HEADER + 4 * h * w:
             # not a violation of the property: the harness' model of which samples a cut removes no longer applies (exit 2)
             raise RuntimeError('harness layout model: file of a %dx%d map is %d bytes, expected 834 + 4 per sample' % (h, w, total))
@@ -445,6 +739,9 @@ def check_zygo_trunc(case, ctx):
             n_nan += 1
             _judge_cut(ctx, 'read_zygo_dat' if case['reader'] == 'io' else 'from_zygo_dat', cut, total, outcome, out, wl, (h, w), missing,
                        'header' if cut < ZYGO_HEADER else '%d complete samples + %d bytes' % (n_complete, (cut - ZYGO_HEADER) % 4))
+        # history: the intact file read after all the damaged ones gives what it gave before them
+        U.check_equal(np.asarray(ctx.call(reader, p)), first, ('read_zygo_dat' if case['reader'] == 'io' else 'from_zygo_dat') + ':after-truncated-reads',
+                      'intact file read again after %d reads of truncated copies' % total)
     ctx.tally('cut_points', total)
     ctx.tally('cut_points_in_data_block', total - ZYGO_HEADER)
     ctx.tally('cuts_rejected', n_rej)
@@ -467,15 +764,16 @@ def check_codev_trunc(case, ctx):
     _labels(case, ctx, CODEV_AMPS)
     ctx.nt(True)
     h, w = case['shape']
-    z, m = build_map(case, 1.0)
+    z, _ = typed_map(case, 1.0, float('inf'))
 
     def reader(path):
         return read_codev_gridint(path)[0]
     with tempfile.TemporaryDirectory() as d:
         p = os.path.join(d, 'full.int')
-        ctx.call(write_codev_gridint, z.copy(), p, comment=case['title'], typ=case['typ'], nnb=case['nnb'])
+        ctx.call(write_codev_gridint, z, p, comment=case['title'], typ=case['typ'], nnb=case['nnb'])
         with open(p, newline='') as fh:
             text = fh.read()
+        first = np.array(ctx.call(reader, p), copy=True)
         hdr = _codev_header(text)
         ctx.require(hdr is not None, 'codev:header', 'header line of the written file is not a GRD header')
         toks = [(mm.start() + hdr['data_offset'], mm.end() + hdr['data_offset']) for mm in _TOKEN.finditer(text[hdr['data_offset']:])]
@@ -510,6 +808,8 @@ def check_codev_trunc(case, ctx):
             missing = korder >= n_complete
             _judge_cut(ctx, 'read_codev_gridint', cut, total, outcome, out, wl, (h, w), missing,
                        'header' if cut < hdr['data_offset'] else '%d complete numbers' % n_complete)
+        U.check_equal(np.asarray(ctx.call(reader, p)), first, 'read_codev_gridint:after-truncated-reads',
+                      'intact file read again after %d reads of truncated copies' % total)
     ctx.tally('cut_points', total)
     ctx.tally('cut_points_whole_sample_lost', n_strict)
     ctx.tally('cut_points_inside_final_number_undecidable', n_und)
@@ -519,10 +819,11 @@ def check_codev_trunc(case, ctx):
 
 
 CLAUSES = [
-    HypClause('zygo_roundtrip', strat_zygo, check_zygo, examples={'quick': 300, 'thorough': 1500}, shards={'quick': 2, 'thorough': 4}),
-    HypClause('interferogram_roundtrip', strat_zygo, check_interferogram, examples={'quick': 200, 'thorough': 1000},
-              shards={'quick': 2, 'thorough': 4}),
-    HypClause('codev_roundtrip', strat_codev, check_codev, examples={'quick': 300, 'thorough': 1500}, shards={'quick': 2, 'thorough': 4}),
+    HypClause('zygo_roundtrip', strat_zygo, check_zygo, examples={'quick': 400, 'thorough': 1500}, shards={'quick': 3, 'thorough': 6}),
+    HypClause('interferogram_roundtrip', strat_zygo, check_interferogram, examples={'quick': 400, 'thorough': 1500},
+              shards={'quick': 3, 'thorough': 6}),
+    HypClause('codev_roundtrip', strat_codev, check_codev, examples={'quick': 400, 'thorough': 1500}, shards={'quick': 3, 'thorough': 6}),
+    HypClause('file_sequence', strat_sequence, check_sequence, examples={'quick': 250, 'thorough': 1000}, shards={'quick': 2, 'thorough': 4}),
     HypClause('zygo_truncation', strat_zygo_trunc, check_zygo_trunc, examples={'quick': 30, 'thorough': 250},
               shards={'quick': 6, 'thorough': 16}),
     HypClause('codev_truncation', strat_codev_trunc, check_codev_trunc, examples={'quick': 60, 'thorough': 400},
